@@ -425,6 +425,7 @@ fn tree_case<V: VK>(o: &mut Out, r: &mut Rng, sq: &Seq, leaves: &[G], db: &mut V
                     None => { obs.push("SPanic".into()); o.panics += 1; break; }
                     Some(Err(e)) => { obs.push(format!("(SErr {})", perr(&e))); o.errs += 1; break; }
                     Some(Ok((links, cnt))) => {
+                        let snap = local_db.clone();
                         let mut lost = false;
                         for l in &links {
                             note(&tree, *l, &mut tbl, &local_db);
@@ -438,7 +439,10 @@ fn tree_case<V: VK>(o: &mut Out, r: &mut Rng, sq: &Seq, leaves: &[G], db: &mut V
                         let hok = note(&tree, tree.root(), &mut tbl, &local_db);
                         let rt = match (tree.root_node(), lost) {
                             (Ok(rt), false) => rt,
-                            (Err(e), _) => { obs.push(format!("(SErr {})", perr(&e))); o.errs += 1; break; }
+                            // the operation succeeded but the view does not hold the new root (its record cannot be
+                            // observed): the history ends before this operation
+                            (Err(_), false) => { local_db = snap; ran -= 1; break; }
+                            (Err(_), true) => { obs.push("SPanic".into()); break; }
                             (_, true) => { obs.push("SPanic".into()); break; }
                         };
                         let tail = format!("{} {} {} {}", tree.len(), plink(tree.root()), pd(V::K, &V::un(rt.data())), boolc(hok));
